@@ -243,6 +243,22 @@ def probeLine (line : String) : String :=
       let a := fint f "a"
       "ok " ++ mval toString (Dec.ceil a) ++ " " ++ mval toString (Dec.roundInt a) ++ " " ++ mval toString (Dec.truncateInt a)
     | "fmt" => "ok " ++ toHex (formatTimeBytes (fint f "t"))
+    | "key" =>
+      let t := fint f "t"; let a := fbytes f "a"; let b := fbytes f "b"; let i := fnat f "i"; let j := fnat f "j"
+      open Hub.Generated.Keys in
+      match fget f "f" with
+      | "node.NodeForInactiveAtKey" => "ok " ++ toHex (node.NodeForInactiveAtKey t a)
+      | "subscription.SubscriptionForInactiveAtKey" => "ok " ++ toHex (subscription.SubscriptionForInactiveAtKey t i)
+      | "subscription.PayoutForNextAtKey" => "ok " ++ toHex (subscription.PayoutForNextAtKey t i)
+      | "session.SessionForInactiveAtKey" => "ok " ++ toHex (session.SessionForInactiveAtKey t i)
+      | "mint.InflationKey" => "ok " ++ toHex (mint.InflationKey t)
+      | "subscription.AllocationKey" => "ok " ++ toHex (subscription.AllocationKey i a)
+      | "session.SessionForAllocationKey" => "ok " ++ toHex (session.SessionForAllocationKey i a j)
+      | "subscription.PayoutForAccountByNodeKey" => "ok " ++ toHex (subscription.PayoutForAccountByNodeKey a b i)
+      | "plan.PlanForProviderKey" => "ok " ++ toHex (plan.PlanForProviderKey a i)
+      | "node.NodeForPlanKey" => "ok " ++ toHex (node.NodeForPlanKey i a)
+      | "deposit.DepositKey" => "ok " ++ toHex (deposit.DepositKey a)
+      | _ => "bad-case"
     | "b32enc" => Hub.SDK.Bech32.runBech32Probe line
     | "b32dec" => Hub.SDK.Bech32.runBech32Probe line
     | "page" => Hub.SDK.Paginate.runPaginateProbe line
